@@ -120,13 +120,13 @@ void gen_history(Rng &r, const Profile &pf, Plan &plan) {
     if (r.chance(1, 6)) P = 0;
     if (r.chance(1, 4)) C = 0;
     if (big) {
-        if (r.chance(1, 2)) P = 200 + static_cast<unsigned>(r.below(56));
-        if (r.chance(1, 2)) C = 200 + static_cast<unsigned>(r.below(56));
+        if (r.chance(1, 2)) P = 200 + static_cast<unsigned>(r.below(41)); // leaves room for late columns below the 255 capacity
+        if (r.chance(1, 2)) C = 200 + static_cast<unsigned>(r.below(41));
     }
     unsigned S = C ? 1 + static_cast<unsigned>(r.below(pf.max_subframes)) : 0;
     unsigned F = static_cast<unsigned>(r.below(pf.max_frames + 1));
-    if (big && r.chance(1, 2)) F = 100 + static_cast<unsigned>(r.below(400));
-    if (big && P > 100 && C > 100) F = std::min(F, 20u);
+    if (big && P <= 100 && C <= 100) { F = 100 + static_cast<unsigned>(r.below(400)); P = std::min(P, 4u); C = std::min(C, 3u); }
+    if (P > 100 || C > 100) F = std::min(F, 8u); // keeps a run (a snapshot after every step) well under a second
 
     std::vector<std::string> pnames, cnames;
     for (unsigned i = 0; i < P; ++i) pnames.push_back(gen_name(r, r.chance(1, 30) ? 100 : 10) + tos(i));
